@@ -78,7 +78,7 @@ def _rt_part():
 
 SPEC = {
     "C02": {
-        "extra_props": ("Tso", "QueueHist",),
+        "extra_props": ("Tso", "TsoGrow", "QueueHist",),
         # second part: the whole runtime (model Rt, shared with C01): every schedule of a fiber
         # is consumed by exactly one switch to it; nothing is queued when all threads are idle
         "parts": [{"name": "wsd", "harness": "wsd", "model": "Wsd", "gen": gen_wsd, "post": post_wsd}, _rt_part()],
